@@ -62,6 +62,15 @@ def check(run):
         specs.append(norm(('task', 'f', [('fset', [('str', w) for w in words]), ('set', [('str', w) for w in words])],
                            [['a', ('dict', [[('str', w), ('tuple', [('fset', [('str', w), ('int', 1)]), ('int', 2)])] for w in words])]])))
         specs.append(norm(('task', 'g', [hm.gen_array(rng), ('ndobj', [2], [('str', words[0]), ('fset', [('str', w) for w in words])])], [])))
+    # values that compare equal in Python but are different values (True/1/1.0, 0.0/-0.0/False/0, tuples thereof) as set elements and
+    # dict keys: whatever a process has hashed before must not leak into a later identifier
+    ones = [('bool', True), ('int', 1), ('float', (1.0).hex())]
+    zeros = [('bool', False), ('int', 0), ('float', (0.0).hex()), ('float', (-0.0).hex())]
+    for a in ones:
+        for z in zeros:
+            specs.append(norm(('task', 'f', [('set', [a, z, ('str', 'k')])], [])))
+            specs.append(norm(('task', 'f', [('dict', [[a, ('int', 5)], [z, ('str', 'v')]])], [])))
+            specs.append(norm(('task', 'g', [('fset', [('tuple', [z, a]), ('tuple', [a, a])])], [['a', ('dict', [[('tuple', [a, z]), ('none',)]])]])))
     bad_corr = 0
     for i, s in enumerate(specs):
         text = json.dumps(s)
@@ -94,17 +103,17 @@ def check(run):
         if len(run.samples) < 3 and nontriv and len(text) < 400:
             run.sample({'spec': s, 'identifier': realA})
     # fresh interpreters under different hash seeds (subsample in the quick tier)
-    sub = specs if not quick else specs[::3] + specs[-120:]
+    sub = specs if not quick else specs[::3] + specs[-160:]
     d = core.scratch_dir()
     try:
         sf = os.path.join(d, 'specs.json')
         json.dump(sub, open(sf, 'w'))
         outs = []
         procs = []
-        seeds = [('0', -1), ('1', 1), ('4242', 2), ('random', 3)] + ([] if quick else [('77', 4), ('random', 5), ('31337', -1)])
-        for hs, order in seeds:
+        seeds = [('0', -1, 'fwd'), ('1', 1, 'rev'), ('4242', 2, 'shuf1'), ('random', 3, 'shuf2')] + ([] if quick else [('77', 4, 'shuf3'), ('random', 5, 'rev'), ('31337', -1, 'shuf4')])
+        for hs, order, visit in seeds:
             env = dict(os.environ, PYTHONHASHSEED=hs)
-            procs.append(subprocess.Popen([sys.executable, '-m', 'jugverif.hashproc', sf, str(order)], stdout=subprocess.PIPE, stderr=subprocess.PIPE, text=True, env=env))
+            procs.append(subprocess.Popen([sys.executable, '-m', 'jugverif.hashproc', sf, str(order), visit], stdout=subprocess.PIPE, stderr=subprocess.PIPE, text=True, env=env))
         for p in procs:
             o, e = p.communicate(timeout=1200)
             if p.returncode != 0:
@@ -116,8 +125,9 @@ def check(run):
             vals = [o[j] for o in outs]
             run.count('cross_process_cases')
             if len(set(vals)) != 1 or vals[0].startswith('EXC'):
-                run.fail('process-dependent', 'identifier differs between interpreter processes / PYTHONHASHSEEDs %s: %s for %s' % ([s_[0] for s_ in seeds], vals, json.dumps(s)[:400]),
-                         {'kind': 'spec-xproc', 'spec': s, 'hashseeds': [s_[0] for s_ in seeds]})
+                run.fail('process-dependent', 'identifier differs between interpreter processes (PYTHONHASHSEED, order in which the process hashed the %d values) %s: %s for %s'
+                         % (len(sub), [(s_[0], s_[2]) for s_ in seeds], vals, json.dumps(s)[:400]),
+                         {'kind': 'spec-xproc', 'spec': s, 'index': j, 'hashseeds': [s_[0] for s_ in seeds], 'visits': [s_[2] for s_ in seeds], 'all_specs': sub if len(json.dumps(sub)) < 400000 else None})
     finally:
         core.rm_rf(d)
     run.counts['kinds'] = kinds
@@ -147,11 +157,14 @@ def replay(path):
         dd = core.scratch_dir()
         try:
             sf = os.path.join(dd, 's.json')
-            json.dump([r['spec']], open(sf, 'w'))
+            allspecs = r.get('all_specs') or [r['spec']]
+            j = r.get('index', 0) if r.get('all_specs') else 0
+            json.dump(allspecs, open(sf, 'w'))
             hs = []
+            visits = r.get('visits') or ['fwd'] * len(r['hashseeds'])
             for i, h in enumerate(r['hashseeds']):
-                o = subprocess.check_output([sys.executable, '-m', 'jugverif.hashproc', sf, str(i)], env=dict(os.environ, PYTHONHASHSEED=h), text=True)
-                hs.append(json.loads(o)[0])
+                o = subprocess.check_output([sys.executable, '-m', 'jugverif.hashproc', sf, str(i), visits[i]], env=dict(os.environ, PYTHONHASHSEED=h), text=True)
+                hs.append(json.loads(o)[j])
         finally:
             core.rm_rf(dd)
         print('identifiers per PYTHONHASHSEED', dict(zip(r['hashseeds'], hs)))
